@@ -1539,11 +1539,17 @@ class OutlineOTFCompiler(BaseOutlineCompiler):
         if copyright is None:
             copyright = ""
         topDict.Copyright = copyright
-        topDict.FullName = getAttrWithFallback(info, "postscriptFullName")
-        topDict.FamilyName = getAttrWithFallback(
-            info, "openTypeNamePreferredFamilyName"
-        )
-        topDict.Weight = getAttrWithFallback(info, "postscriptWeightName")
+        # CFF strings cannot hold non-ASCII text: reduce those values like Notice
+        # and Copyright above (plain ASCII values are stored unchanged)
+        for cffKey, infoAttr in (
+            ("FullName", "postscriptFullName"),
+            ("FamilyName", "openTypeNamePreferredFamilyName"),
+            ("Weight", "postscriptWeightName"),
+        ):
+            value = getAttrWithFallback(info, infoAttr)
+            if value and not value.isascii():
+                value = normalizeStringForPostscript(value)
+            setattr(topDict, cffKey, value)
         # populate various numbers
         topDict.isFixedPitch = int(getAttrWithFallback(info, "postscriptIsFixedPitch"))
         topDict.ItalicAngle = float(getAttrWithFallback(info, "italicAngle"))
